@@ -245,15 +245,20 @@ func cmdCrash(f hx.Flags, r *hx.Result) {
 	n := 0
 	rollVar, rlVar, rlRot := 0, 0, 0
 	sigs := map[string]bool{}
-	err = hx.ReadCases(f.Str("cases", ""), func(raw json.RawMessage) error {
+	forceRL := false // fixed placements of the RollingFile logger across a real rotation, whatever the enumeration order
+	oneCase := func(raw json.RawMessage) error {
 		var c crashCase
 		if err := json.Unmarshal(raw, &c); err != nil {
 			return err
 		}
-		for rep := 0; rep < f.Int("variants", 2); rep++ {
+		variants := f.Int("variants", 2)
+		if forceRL {
+			variants = 2
+		}
+		for rep := 0; rep < variants; rep++ {
 			n++
 			kind := kinds[n%3]
-			if n%7 == 5 {
+			if n%7 == 5 || forceRL {
 				kind = "rollinglogger"
 			}
 			layout := layouts[(n/3)%2]
@@ -264,7 +269,7 @@ func cmdCrash(f hx.Flags, r *hx.Result) {
 			if n%2 == 0 {
 				args = append(args, "--layoutat", "logger")
 			}
-			rawEvery := n%3 == 0 && layout == "TextLayout"
+			rawEvery := n%3 == 0 && layout == "TextLayout" && !forceRL
 			if rawEvery {
 				args = append(args, "--rawevery", "3")
 			}
@@ -278,7 +283,7 @@ func cmdCrash(f hx.Flags, r *hx.Result) {
 				// cross a real one-second rotation (and the retention scan it launches) before the crash
 				rlVar++
 				args = append(args, "--separate", "1")
-				if c.Calls >= 3 && c.K >= 3 && rlVar%2 == 1 {
+				if c.Calls >= 3 && c.K >= 3 && (rlVar%2 == 1 || forceRL) {
 					args = append(args, "--realrot", "1")
 					rlRot++
 				}
@@ -395,12 +400,18 @@ func cmdCrash(f hx.Flags, r *hx.Result) {
 			}
 		}
 		return nil
-	})
+	}
+	err = hx.ReadCases(f.Str("cases", ""), oneCase)
 	if err != nil {
 		r.SetInfra("read cases: %v", err)
 	}
-	r.NonTrivial(int64(len(sigs)))
-	if rlVar > 6 && rlRot == 0 {
-		r.SetInfra("no placement exercised the RollingFile logger across a real rotation")
+	if sh := os.Getenv("VERIF_SHARD"); (sh == "" || sh == "0") && !hx.Stopped() {
+		forceRL = true
+		for _, c := range []crashCase{{Goroutines: 1, Calls: 6, K: 4, How: "kill"}, {Goroutines: 2, Calls: 4, K: 7, How: "exit"}} {
+			raw, _ := json.Marshal(c)
+			_ = oneCase(raw)
+		}
 	}
+	r.NonTrivial(int64(len(sigs)))
+	_ = rlRot
 }
